@@ -1010,6 +1010,46 @@ async def run_union_case(default_reg: bool, raise_who, close_first: bool, task_f
             'close': dict(result), 'close_returned_while_alive': early, 'closer_alive': hung}
 
 
+def run_thread_api_cases() -> list:
+    """the real ThreadDoneCallback through its API, no scheduler: (a) a thread registered BY ANOTHER thread (register(t)) is the
+    one that is called back, with that thread object as the argument; (b) a registered thread all of whose references the
+    caller dropped is still called back after it ended (the helper itself must keep it); (c) register() returns the thread.
+    -> [(signature, what)]"""
+    import gc
+    from nextline.utils.done_callback.thread import ThreadDoneCallback
+    bad = []
+    # (a), (c)
+    got = []
+    obj = ThreadDoneCallback(done=lambda t: got.append(t.name), interval=0.001)
+    ev = threading.Event()
+    other = threading.Thread(target=ev.wait, args=(5,), name='verif-other', daemon=True)
+    other.start()
+    r = obj.register(other)
+    if r is not other:
+        bad.append(('thread:register-returns-other-object', f'register(t) returned {r!r}'))
+    ev.set()
+    other.join(5)
+    obj.close()
+    if got != ['verif-other']:
+        bad.append(('thread:callback-for-wrong-thread', f'register(<thread verif-other>) from the main thread: callbacks invoked for {got}'))
+    # (b)
+    got2 = []
+    obj = ThreadDoneCallback(done=lambda t: got2.append(t.name), interval=0.02)
+    ev2 = threading.Event()
+    th = threading.Thread(target=ev2.wait, args=(5,), name='verif-dropped', daemon=True)
+    th.start()
+    obj.register(th)
+    ev2.set()
+    th.join(5)
+    del th
+    gc.collect()
+    time.sleep(0.08)
+    obj.close()
+    if got2 != ['verif-dropped']:
+        bad.append(('thread:callback-lost-for-unreferenced-thread', f'a registered thread whose references were dropped by the caller ended; callbacks invoked for {got2}'))
+    return bad
+
+
 def oracle_union(o: dict) -> list:
     bad = []
     if o['close'].get('register_raised'):
@@ -1366,6 +1406,8 @@ def correspond(ctx) -> Corr:
             for sig, what in oracle_union(o):
                 corr.violations.append(Violation(sig, what, {'half': 'union', 'default_reg': d, 'raise_who': r, 'close_first': c, 'task_first': tf, 'observed': o}))
         corr.extra['union_cases'] = len(UNION_CASES)
+        for sig, what in run_thread_api_cases():
+            corr.violations.append(Violation(sig, what, {'half': 'thread-api'}))
     finally:
         loop.close()
     CH = 400
@@ -1421,7 +1463,9 @@ def search(ctx, broken) -> list:
 
 def replay(ctx, path: Path) -> int:
     j = json.loads(path.read_text())
-    if j.get('half') == 'task-window':
+    if j.get('half') == 'thread-api':
+        bad = run_thread_api_cases()
+    elif j.get('half') == 'task-window':
         loop = asyncio.new_event_loop()
         o = loop.run_until_complete(run_task_window_case(set(j.get('raises', [])), j['n']))
         print('observed:', o)
